@@ -48,7 +48,7 @@ esac
 
 first="$1"; n="$2"; shift 2
 last=$((first + n))
-BATCH_TIMEOUT="${MIRI_BATCH_TIMEOUT:-$((120 + 20 * n))}"
+BATCH_TIMEOUT="${MIRI_BATCH_TIMEOUT:-$((90 + 12 * n))}"
 mkdir -p "$VERIF/replays"
 t0=$(date +%s.%N)
 viol=0; total=0; summary="["
@@ -65,7 +65,7 @@ for sc in "$@"; do
     # one at a time under the per-execution limit.
     pkill -f "frmiri" 2>/dev/null
     for seed in $(seq "$first" $((last - 1))); do
-      if ! "$0" replay "$sc" "$seed" "$RATE" >/dev/null 2>&1; then failing="$seed"; echo "error: execution did not terminate (or failed) under Miri seed $seed" >> "$log"; break; fi
+      if ! "$HERE/run.sh" replay "$sc" "$seed" "$RATE" >/dev/null 2>&1; then failing="$seed"; echo "error: execution did not terminate (or failed) under Miri seed $seed" >> "$log"; break; fi
     done
     if [ -z "$failing" ]; then
       echo "harness error: Miri batch for scenario $sc exceeded ${BATCH_TIMEOUT}s but every seed terminates alone (machine overloaded?)" >&2
@@ -82,7 +82,7 @@ for sc in "$@"; do
   for seed in $failing; do
     rp="$VERIF/replays/C18-miri-s$sc-$seed.json"
     # report only after the exact execution reproduced in a fresh process; its output is the detail
-    if rout=$("$0" replay "$sc" "$seed" "$RATE" 2>&1); then
+    if rout=$("$HERE/run.sh" replay "$sc" "$seed" "$RATE" 2>&1); then
       echo "harness error: Miri seed $seed (scenario $sc) failed in the batch but not on replay" >&2
       exit 2
     fi
